@@ -63,6 +63,15 @@ def points(tier):
                     for r in (1, 2, 3):
                         for how in ("dict", "list", "list-short"):
                             pts.append({"kind": "dtypes", "d": d, "c": c, "r": r, "engine": eng, "sign": sign, "noise": None, "dtypes": how})
+            # the same shapes read with mnemonic_case lower / preserve (the steering items are then stored as 'wrap', 'dlm', ...)
+            for case in ("lower", "preserve"):
+                for d in range(0, 5):
+                    for c in range(1, 5):
+                        for r in (1, 2, 3):
+                            pts.append({"kind": "unwrapped", "d": d, "c": c, "r": r, "engine": eng, "sign": sign, "noise": None, "case": case})
+                for c in (2, 3):
+                    for k in range(1, c):
+                        pts.append({"kind": "comma-empty", "d": c, "c": c, "r": 2, "engine": eng, "sign": sign, "noise": None, "empty": k, "case": case})
             # a column of ISO dates (a hyphen in every data row) with and without a remark line that itself holds hyphens:
             # the date stays one cell of one column
             for c in (1, 2, 3):
@@ -200,6 +209,8 @@ def check_point(pt):
         rkw = {"ignore_data_comments": pt["marker"]} if pt.get("marker") else {}
         if pt["kind"] == "wrapflag":
             rkw["use_normal_engine_for_wrapped"] = False
+        if pt.get("case"):
+            rkw["mnemonic_case"] = pt["case"]
         if pt["kind"] == "dtypes":
             names = [cv[0] for cv in curves]
             rkw["dtypes"] = ({n: float for n in names} if pt["dtypes"] == "dict" else
@@ -225,8 +236,9 @@ def check_point(pt):
     if lens and lens[0] != r:
         vio.append(V("row-count", r, lens[0]))
         return vio, nontriv, "ok", {}, 1
+    casef = {"lower": str.lower, "upper": str.upper}.get(pt.get("case") or "upper", lambda x: x)
     for j in range(d):
-        exp = curves[j]
+        exp = (casef(curves[j][0]),) + tuple(curves[j][1:])
         got = (cur[j].original_mnemonic, cur[j].unit, cur[j].value, cur[j].descr)
         if got != exp:
             vio.append(V("declared-metadata", list(exp), list(got)))
@@ -310,6 +322,8 @@ def classify(pt, clause):
         feats.append("inner-A")
     if pt.get("marker"):
         feats.append("marker")
+    if pt.get("case"):
+        feats.append("case=" + pt["case"])
     return "+".join(feats)
 
 
